@@ -38,6 +38,7 @@ def compare_reader(case, ots, mfs=None, mms=None):
 
 class StreamProp(E2Prop):
     """reader cases built from generated frame sequences"""
+    proto_class_only = True       # C02/C05/C06/C08 name the error class (protocol / capacity / utf8), not the ProtocolError variant
     n_quick = 1500
     n_thorough = 60000
     seg_all = False
